@@ -533,9 +533,26 @@ def config_file_case(args):
     label, settings, services = plugin_configs()[k % len(plugin_configs())]
     tls_written = [None, "True", "False", "true", "no", "1", "0"][(k // len(plugin_configs())) % 7]
     tls = True if tls_written is None else tls_written.lower() in ("true", "1", "yes", "on")
+    # how the values are WRITTEN: literally, or through a reference to another option of the same block (the INI dialect
+    # of the server's configuration file has %(name)s references; [DEFAULT] options are refused as unknown server settings)
+    variant = (k // (len(plugin_configs()) * 7)) % 2
     extra = ""
+    extras_of_block = {}
     for name, c in settings:
-        extra += "[%s]\n" % name + "".join("%s=%s\n" % (kk, vv) for kk, vv in c.items())
+        lines, more = [], {}
+        for kk, vv in c.items():
+            if variant == 1 and kk == "enabled" and vv == "True":
+                lines.append("switch=True")
+                lines.append("enabled=%(switch)s")
+                more["switch"] = "True"
+            elif variant == 1 and kk == "url" and str(vv).startswith("http://"):
+                lines.append("scheme=http")
+                lines.append("url=%(scheme)s://" + str(vv)[7:])
+                more["scheme"] = "http"
+            else:
+                lines.append("%s=%s" % (kk, vv))
+        extras_of_block[name] = more
+        extra += "[%s]\n" % name + "".join(l + "\n" for l in lines)
     fails, n = [], 0
     saved = S.slugs_mod.requests
     fs = None
@@ -543,7 +560,8 @@ def config_file_case(args):
         fs = server_front.FrontServer(extra_conf=extra, tls_line=("" if tls_written is None else "enable_tls_client_auth=%s\n" % tls_written))
         got_plugins = fs.server.config.settings.get("auth_plugins")
         # (the plug-in blocks of a configuration file are its sections named auth:...; any other section is not one)
-        want_plugins = [(nm, dict((kk.lower(), str(vv)) for kk, vv in c.items())) for nm, c in settings if nm.startswith("auth:")]
+        want_plugins = [(nm, dict([(kk.lower(), str(vv)) for kk, vv in c.items()] + list(extras_of_block[nm].items())))
+                        for nm, c in settings if nm.startswith("auth:")]
         if [(a, dict(b)) for a, b in (got_plugins or [])] != want_plugins:
             fails.append(("c17:config-plugins-differ-from-file", "the file defines %r, the server holds %r" % (want_plugins, got_plugins)))
         if fs.server.config.settings.get("enable_tls_client_auth") is not tls:
@@ -595,7 +613,9 @@ def config_file_case(args):
 def config_file_part(ctx, st):
     import multiprocessing
     nconf = len(plugin_configs())
-    ks = list(range(nconf * 7)) if ctx.tier != "quick" else [(ctx.seed * 5 + 3 * i) % (nconf * 7) for i in range(nconf)] + list(range(0, nconf * 7, nconf))
+    ks = list(range(nconf * 14)) if ctx.tier != "quick" else \
+        [(ctx.seed * 5 + 3 * i) % (nconf * 7) for i in range(nconf)] + list(range(0, nconf * 7, nconf)) + \
+        [nconf * 7 + i for i in range(nconf)]
     args = [(k, ctx.seed * 41 + k) for k in sorted(set(ks))]
     with multiprocessing.get_context("fork").Pool(8) as pool:
         res = pool.map(config_file_case, args)
